@@ -1,4 +1,4 @@
 From Coq Require Import Extraction ExtrOcamlBasic List ZArith.
-From MirV Require Import C09.PpIf C09.C11If.
+From MirV Require Import C09.PpIf C09.C11If C09.PpExpand.
 Extraction Language OCaml.
-Extraction "c09x.ml" eval if_taken pre_unsigned_p fixed prefix c11_if c11_taken lits_ok.
+Extraction "c09x.ml" eval if_taken pre_unsigned_p fixed prefix c11_if c11_taken lits_ok expand stringify destringify.
